@@ -209,6 +209,12 @@ impl Strategy {
     }
 
     pub fn update_estimator_early(&mut self) {
+        #[cfg(nuts_rs_verif)]
+        crate::verif::emit("stepsize", || {
+            crate::verif::json!({"ev": "ss_advance", "which": "early",
+                "val": crate::verif::bits(self.last_mean_tree_accept),
+                "adapting": self.adaptation.is_some()})
+        });
         match self.adaptation.as_mut() {
             None => {}
             Some(Either::Left(adapt)) => {
@@ -221,6 +227,12 @@ impl Strategy {
     }
 
     pub fn update_estimator_late(&mut self) {
+        #[cfg(nuts_rs_verif)]
+        crate::verif::emit("stepsize", || {
+            crate::verif::json!({"ev": "ss_advance", "which": "late",
+                "val": crate::verif::bits(self.last_sym_mean_tree_accept),
+                "adapting": self.adaptation.is_some()})
+        });
         match self.adaptation.as_mut() {
             None => {}
             Some(Either::Left(adapt)) => {
@@ -256,6 +268,12 @@ impl Strategy {
             Some(Either::Right(ref adapt)) => adapt.current_step_size(),
         };
 
+        #[cfg(nuts_rs_verif)]
+        crate::verif::emit("stepsize", || {
+            crate::verif::json!({"ev": "ss_set", "best": use_best_guess,
+                "base": crate::verif::bits(step_size),
+                "jitter": self.options.jitter})
+        });
         if let Some(jitter) = self.options.jitter {
             let jitter =
                 rng.sample(Uniform::new(1.0 - jitter, 1.0 + jitter).expect("Invalid jitter"));
